@@ -18,16 +18,23 @@ NAMES = {1: "customer_id", 2: "surname", 3: "color", 4: "date_of_birth", 5: "cod
 TYPES = {1: "Integer", 2: "Text", 3: "Choice", 4: "DateTime", 5: "Pattern", 6: "Decimal", 9: "Text"}
 
 
-def f_row(fmt, ident, tag):
+def rotated(ident, shift):
+    """Which base field stands for abstract field `ident`: the extra spellings rotate the six types through the ids."""
+    return ((ident - 1 + shift) % 6) + 1 if ident <= 6 else ident
+
+
+def f_row(fmt, ident, tag, shift=0):
     fixed = fmt == "fixed"
+    ident = rotated(ident, shift)
+    # every base field carries an example that its own field accepts
     base = {
-        1: [NAMES[1], "", "", "3" if fixed else "1...3", "Integer", "0...999"],
-        2: [NAMES[2], "", "X", "5" if fixed else "", "Text", ""],
-        3: [NAMES[3], "", "", "5" if fixed else "", "Choice", "red, green, blue, 1.0"],
-        4: [NAMES[4], "", "X", "10" if fixed else "", "DateTime", "YYYY-MM-DD"],
-        5: [NAMES[5], "", "", "4" if fixed else "...4", "Pattern", "a*"],
-        6: [NAMES[6], "", "X", "6" if fixed else "", "Decimal", "0...999.99"],
-        9: [NAMES[9], "", "", "2" if fixed else "", "Text", ""],
+        1: [NAMES[1], "123", "", "3" if fixed else "1...3", "Integer", "0...999"],
+        2: [NAMES[2], "Smith", "X", "5" if fixed else "", "Text", ""],
+        3: [NAMES[3], "red", "", "5" if fixed else "", "Choice", "red, green, blue, 1.0"],
+        4: [NAMES[4], "2020-02-29", "X", "10" if fixed else "", "DateTime", "YYYY-MM-DD"],
+        5: [NAMES[5], "abc", "", "4" if fixed else "...4", "Pattern", "a*"],
+        6: [NAMES[6], "12.5", "X", "6" if fixed else "", "Decimal", "0...999.99"],
+        9: [NAMES[9], "ab", "", "2" if fixed else "", "Text", ""],
     }[ident]
     name, example, mark, length, type_name, rule = base
     if tag == "kw":
@@ -79,11 +86,12 @@ def f_row(fmt, ident, tag):
     return ["F", name, example, mark, length, type_name, rule]
 
 
-def c_row(ident, tag):
-    base = {1: ["customer must be unique", "IsUnique", "customer_id"],
-            2: ["not too many customers", "DistinctCount", "customer_id < 100"],
-            3: ["some customers", "DistinctCount", "customer_id >= 0"],
-            9: ["early check", "IsUnique", "customer_id"]}[ident]
+def c_row(ident, tag, shift=0):
+    first = NAMES[rotated(1, shift)]  # the checks speak about the field declared first
+    base = {1: ["customer must be unique", "IsUnique", first],
+            2: ["not too many customers", "DistinctCount", first + " < 100"],
+            3: ["some customers", "DistinctCount", first + " >= 0"],
+            9: ["early check", "IsUnique", first]}[ident]
     desc, type_name, rule = base
     if tag == "emptydesc":
         desc = ""
@@ -98,15 +106,15 @@ def c_row(ident, tag):
     elif tag == "u:empty":
         type_name, rule = "IsUnique", ""
     elif tag == "u:dup":
-        type_name, rule = "IsUnique", "customer_id, customer_id"
+        type_name, rule = "IsUnique", first + ", " + first
     elif tag == "u:comma":
-        type_name, rule = "IsUnique", "customer_id customer_id"
+        type_name, rule = "IsUnique", first + " " + first
     elif tag == "d:undeclared":
         type_name, rule = "DistinctCount", "nosuch < 3"
     elif tag == "d:notbool":
-        type_name, rule = "DistinctCount", "customer_id + 3"
+        type_name, rule = "DistinctCount", first + " + 3"
     elif tag == "d:syntax":
-        type_name, rule = "DistinctCount", "customer_id <<< 3"
+        type_name, rule = "DistinctCount", first + " <<< 3"
     elif tag != "none":
         raise core.MachineryError("C tag %r" % tag)
     return ["C", desc, type_name, rule]
@@ -131,6 +139,12 @@ def d_row(fmt, row):
     raise core.MachineryError("D tag %r" % tag)
 
 
+# cells whose surrounding blanks are content, not decoration, in the code as it is (established by running the variant on the
+# unchanged tree: data-format name and value, a field's example, everything in a check row); the loader strips the others
+SHIFT = {0: 0, 1: 0, 2: 0, 3: 3, 4: 3}  # spelling variant -> rotation of the field types
+UNPADDED = {"D": (1, 2), "F": (2,), "C": (1, 2, 3)}
+
+
 def concrete_rows(vec, variant):
     fmt = None
     for row in vec["rows"]:
@@ -144,9 +158,9 @@ def concrete_rows(vec, variant):
         if kind == "D":
             cells = d_row(fmt, row)
         elif kind == "F":
-            cells = f_row(fmt, row["id"], row["tag"])
+            cells = f_row(fmt, row["id"], row["tag"], SHIFT[variant])
         elif kind == "C":
-            cells = c_row(row["id"], row["tag"])
+            cells = c_row(row["id"], row["tag"], SHIFT[variant])
         elif kind == "comment":
             cells = ["", "Interface: customers", "a comment"]
         elif kind == "blank":
@@ -158,10 +172,13 @@ def concrete_rows(vec, variant):
         if cells and variant == 2 and kind in ("D", "F", "C"):
             width = {"D": 3, "F": 7, "C": 4}[kind]
             cells = cells + [""] * (width - len(cells)) + ["", "trailing note", "ignored"]  # cells beyond the parsed columns
+        if cells and variant == 4 and kind in ("D", "F", "C"):
+            # blanks around the contents of a cell do not matter
+            cells = [(" %s " % cell) if (cell != "" and index not in UNPADDED.get(kind, ())) else cell for index, cell in enumerate(cells)]
         if cells and variant == 3 and kind in ("D", "F", "C"):
             # cells beyond the parsed columns (7 per row) that would make sense if they were read
             cells = cells + [""] * (7 - len(cells)) + {"D": ["Format", fmt], "F": ["Integer", "0...9"],
-                                                       "C": ["IsUnique", "customer_id"]}[kind]
+                                                       "C": ["IsUnique", NAMES[rotated(1, SHIFT[variant])]]}[kind]
         result.append(cells)
     return fmt, result
 
@@ -195,11 +212,12 @@ def load(rows, as_text):
 
 def _job(vec):
     problems = []
-    for variant in range(4):
+    for variant in range(5):
         fmt, rows = concrete_rows(vec, variant)
         for as_text in ((False, True) if variant == 0 and not any(r == [] for r in rows) else (False,)):
             observed = load(rows, as_text)
-            what = "%s CID with %s (%s%s)" % (fmt, vec["label"], ["plain", "lower-case markers with blanks", "trailing cells", "plausible cells beyond column 7"][variant],
+            what = "%s CID with %s (%s%s)" % (fmt, vec["label"], ["plain", "lower-case markers with blanks", "trailing cells", "plausible cells beyond column 7",
+                                                "blanks around every cell"][variant],
                                                ", from text" if as_text else "")
             if observed["status"] == "crash":
                 problems.append("%s: neither accepted nor refused with an interface error: %s; rows %r" % (what, observed["text"], rows))
@@ -211,9 +229,9 @@ def _job(vec):
                     problems.append("%s: the rejection names row %d (%s) but the offending row is %d; rows %r" % (
                         what, observed["row"], observed["text"][:80], vec["errRow"], rows))
             else:
-                want_fields = [NAMES[i] for i in vec["fields"]]
-                want_types = [TYPES[i] + "FieldFormat" for i in vec["fields"]]
-                want_checks = [c_row(i, "none")[1] for i in vec["checks"]]
+                want_fields = [NAMES[rotated(i, SHIFT[variant])] for i in vec["fields"]]
+                want_types = [TYPES[rotated(i, SHIFT[variant])] + "FieldFormat" for i in vec["fields"]]
+                want_checks = [c_row(i, "none")[1] for i in vec["checks"]]  # (descriptions do not depend on the rotation)
                 if observed["fields"] != want_fields or observed["types"] != want_types:
                     problems.append("%s: fields are %s %s but %s %s were declared" % (what, observed["fields"], observed["types"],
                                                                                       want_fields, want_types))
